@@ -90,3 +90,30 @@ type Locker interface {
 	Lock()
 	Unlock()
 }
+
+// Cond mirrors sync.Cond: Wait releases the lock, blocks until a Signal/Broadcast that comes after it,
+// and takes the lock again (callers re-check their condition in a loop, so a Signal may wake everybody).
+type Cond struct {
+	L   Locker
+	gen int
+}
+
+func NewCond(l Locker) *Cond { return &Cond{L: l} }
+
+func (c *Cond) Wait() {
+	g := c.gen
+	c.L.Unlock()
+	vrt.Point("cond-wait", false, func() bool { return c.gen != g })
+	vrt.RaceAcquire(c)
+	c.L.Lock()
+}
+
+func (c *Cond) Signal() {
+	vrt.RaceRelease(c)
+	c.gen++
+}
+
+func (c *Cond) Broadcast() {
+	vrt.RaceRelease(c)
+	c.gen++
+}
